@@ -79,7 +79,7 @@ def first_difference(a, b):
 # C07
 # ---------------------------------------------------------------------------
 
-REWRITES = ['reseed', 'reseed', 'scale', 'nan', 'delete', 'remove_all']
+REWRITES = ['reseed', 'reseed', 'scale', 'nan', 'delete', 'remove_all', 'nonpositive']
 
 
 def future_reads(tr, world):
@@ -328,6 +328,24 @@ def run_c18_case(case, acc):
                                 'a run on a data source that served an earlier session differs at %s #%d: %s vs %s'
                                 % (k, i, x, y), {'mode': 'warmed-data-source'})
             acc.count('C18:warmed_source_pairs')
+        finally:
+            world.close()
+        # (e) the same universe object serves a first session and then this one (everything else rebuilt)
+        world = sesswl.make_world(cfg)
+        try:
+            shared = {'share_universe': True}
+            first = json.loads(json.dumps(cfg))
+            first['burn_in'] = None
+            sesswl.run_session(first, world, shared=shared)
+            shared.pop('source', None)
+            d5, r5, _ = one_digest(cfg, shared=shared, world=world)
+            acc.count('C18:runs', 2)
+            if d1 != d5:
+                k, i, x, y = first_difference(r1, r5)
+                raise Violation('C18', 'reused-universe-object/%s' % k,
+                                'a run whose universe object already served an earlier session differs at %s #%d: %s vs %s'
+                                % (k, i, x, y), {'mode': 'reused-universe-object'})
+            acc.count('C18:reused_universe_pairs')
         finally:
             world.close()
         # (c) fresh interpreters with other string-hash seeds
